@@ -562,6 +562,22 @@ def property_fails_on(op, impl):
             have = 0 if remotes == "-" else len(remotes.split("+"))
             if have != n:
                 return "nodes view: %s has %d remote address(es); %d answers mention it" % (tcp, have, n)
+            # every topic~tombstone pair shown for a node is a pair some responding nsqlookupd reported for that node
+            # (topics[i] with tombstones[i]; a shorter tombstones array means "not tombstoned"); which answer wins when
+            # several mention the node is scheduling, so the union over the answers is what is demanded
+            up = set()
+            for l in w["lookupds"]:
+                for p in (l["nodes"] or []):
+                    if p is not None and p["tcp"] == tcp:
+                        for i, tn in enumerate(p["topics"]):
+                            up.add("%s~%s" % (tn or "-", "1" if i < len(p["tombstones"]) and p["tombstones"][i] else "0"))
+            shown = [] if f[-1] == "-" else f[-1].split("+")
+            wrong = sorted(x for x in shown if x not in up)
+            if len(f) < 7 or any(re.search(r"[/+;\]\[]", x) or x.count("~") != 1 for x in up):
+                wrong = []   # a name that collides with the rendering's separators: not judged here
+            if wrong:
+                return ("nodes view: %s is shown with topic~tombstoned %s; the responding nsqlookupds report only %s for it"
+                        % (tcp, wrong, sorted(up)))
     return None
 
 
